@@ -82,7 +82,7 @@ func (g *schemaGenerator) generateReferencedType(t *schemas.Type) (codegen.Type,
 	if t.Ref == "#" {
 		if schemaOutput, ok := g.outputs[g.schema.ID]; ok {
 			if decl, ok := schemaOutput.declsBySchema[t]; ok {
-				if decl != nil {
+				if decl != nil && decl.Type != nil {
 					return decl.Type, nil
 				}
 			}
